@@ -2,6 +2,7 @@
 C13  Components fail and recover with the configured rates and repair times.
 -/
 import Relsad.Model.Fail
+import Mathlib.Tactic.Linarith
 import Relsad.Props.C17
 import Mathlib.MeasureTheory.Measure.Lebesgue.Basic
 
@@ -207,5 +208,158 @@ theorem controller_staged (P : CtrlP) (c : Ctrl) (dt : Time) (u1 u2 u3 u4 : ℚ)
 example : (fun s => Two.tick s (1/2))^[5] ⟨true, 3⟩ = ⟨true, 1/2⟩ ∧
     (fun s => Two.tick s (1/2))^[6] ⟨true, 3⟩ = ⟨false, 0⟩ := by
   constructor <;> decide +kernel
+
+/-! ### Components inside a network that keeps a shared "some line is failed" flag -/
+
+private theorem getD_set_self' (l : List Two) (i : Nat) (v : Two) (h : i < l.length) : (l.set i v).getD i default = v := by
+  simp [List.getD_eq_getElem?_getD, List.getElem?_set, h]
+
+private theorem getD_set_ne' (l : List Two) (i j : Nat) (v : Two) (h : i ≠ j) : (l.set i v).getD j default = l.getD j default := by
+  simp [List.getD_eq_getElem?_getD, List.getElem?_set, h]
+
+/-- **A component returns to service when its own time is used up, whatever the other components of its network are doing**:
+inside a network (which keeps a flag "some line is failed" that `fail` sets and `not_fail` clears), the update of component
+`i` changes that component exactly as the stand-alone two-state rule prescribes and leaves every other component as it
+was - in particular two overlapping outages in one network each end when their own remaining time runs out. -/
+theorem network_component_independent (n : NetTwo) (i : Nat) (hi : i < n.comps.length) (rate : ℚ) (dt : Time) (u rep : ℚ) :
+    (n.stepOne i rate dt u rep).comps.getD i default = (n.comps.getD i default).step rate dt u rep ∧
+    ∀ j, j ≠ i → (n.stepOne i rate dt u rep).comps.getD j default = n.comps.getD j default := by
+  unfold NetTwo.stepOne Two.step Two.tick NetTwo.notFail
+  constructor
+  · by_cases hf : (n.comps.getD i default).failed = true
+    · simp only [hf, if_true]
+      split_ifs <;> simp only [getD_set_self' _ _ _ hi]
+    · simp only [hf, Bool.false_eq_true, if_false]
+      split_ifs <;> simp only [getD_set_self' _ _ _ hi]
+  · intro j hj
+    by_cases hf : (n.comps.getD i default).failed = true
+    · simp only [hf, if_true]
+      split_ifs <;> simp only [getD_set_ne' _ _ _ _ (Ne.symm hj)]
+    · simp only [hf, Bool.false_eq_true, if_false]
+      split_ifs <;> simp only [getD_set_ne' _ _ _ _ (Ne.symm hj)]
+
+private theorem filter_len_zero_iff (l : List Two) : (l.filter (·.failed)).length = 0 ↔ l.any (·.failed) = false := by
+  induction l with
+  | nil => simp
+  | cons c cs ih =>
+    by_cases h : c.failed = true
+    · simp [List.filter, h]
+    · simp only [Bool.not_eq_true] at h
+      simp [List.filter, h, ih]
+
+private theorem cnt_one_iff (l : List Two) (r : ℚ) : ∀ i, i < l.length → (l.getD i default).failed = true →
+    (((l.filter (·.failed)).length == 1) = !((l.set i ⟨false, r⟩).any (·.failed))) := by
+  induction l with
+  | nil => intro i hi; simp at hi
+  | cons c cs ih =>
+    intro i hi hf
+    cases i with
+    | zero =>
+      have hc : c.failed = true := by simpa using hf
+      have := filter_len_zero_iff cs
+      by_cases ha : cs.any (·.failed) = true
+      · have hne : (cs.filter (·.failed)).length ≠ 0 := by
+          intro h0; rw [this.mp h0] at ha; exact absurd ha (by simp)
+        simp [List.filter, hc, ha, hne]
+      · simp only [Bool.not_eq_true] at ha
+        simp [List.filter, hc, ha, this.mpr ha]
+    | succ k =>
+      have hk : k < cs.length := by simpa using hi
+      have hf' : (cs.getD k default).failed = true := by simpa using hf
+      by_cases hc : c.failed = true
+      · have hpos : 0 < (cs.filter (·.failed)).length := by
+          apply List.length_pos_of_mem (a := cs.getD k default)
+          rw [List.mem_filter]
+          refine ⟨?_, hf'⟩
+          simp only [List.getD_eq_getElem?_getD, List.getElem?_eq_getElem hk, Option.getD_some]
+          exact List.getElem_mem hk
+        have hmem : ∃ x ∈ cs, x.failed = true := by
+          refine ⟨cs.getD k default, ?_, hf'⟩
+          simp only [List.getD_eq_getElem?_getD, List.getElem?_eq_getElem hk, Option.getD_some]
+          exact List.getElem_mem hk
+        simp [List.filter, hc]
+        exact hmem
+      · simp only [Bool.not_eq_true] at hc
+        have := ih k hk hf'
+        simp [List.filter, hc, List.set_cons_succ, this]
+
+private theorem any_of_getD (l : List Two) : ∀ i, i < l.length → (l.getD i default).failed = true → l.any (·.failed) = true := by
+  intro i hi h
+  rw [List.any_eq_true]
+  refine ⟨l.getD i default, ?_, h⟩
+  simp only [List.getD_eq_getElem?_getD, List.getElem?_eq_getElem hi, Option.getD_some]
+  exact List.getElem_mem hi
+
+private theorem any_set_true (l : List Two) (i : Nat) (r : ℚ) (hi : i < l.length) : (l.set i ⟨true, r⟩).any (·.failed) = true := by
+  apply any_of_getD _ i (by simpa using hi)
+  simp [List.getD_eq_getElem?_getD, List.getElem?_set, hi]
+
+private theorem any_set_same (l : List Two) (v : Two) : ∀ i, i < l.length → v.failed = (l.getD i default).failed →
+    (l.set i v).any (·.failed) = l.any (·.failed) := by
+  induction l with
+  | nil => intro i hi; simp at hi
+  | cons c cs ih =>
+    intro i hi h
+    cases i with
+    | zero => simp at h; simp [h]
+    | succ k =>
+      have hk : k < cs.length := by simpa using hi
+      have := ih k hk (by simpa using h)
+      simp [List.set_cons_succ, this]
+
+/-- the network's flag says exactly whether one of its components is failed -/
+def FlagOK (n : NetTwo) : Prop := n.flag = n.comps.any (·.failed)
+
+/-- **The network's "some line is failed" flag tracks the components**: set when one fails, cleared when the last failed one
+returns - through every update of every component (the flag decides whether controllers bother to search for a
+communication path, and whether a SURVIVAL microgrid stays separated). -/
+theorem flag_tracks_failures (n : NetTwo) (i : Nat) (hi : i < n.comps.length) (rate : ℚ) (dt : Time) (u rep : ℚ) (h : FlagOK n) :
+    FlagOK (n.stepOne i rate dt u rep) := by
+  unfold FlagOK at *
+  unfold NetTwo.stepOne
+  by_cases hf : (n.comps.getD i default).failed = true
+  · simp only [hf, if_true]
+    have hold : n.comps.any (·.failed) = true := any_of_getD _ i hi hf
+    by_cases hr : (n.comps.getD i default).rem - dt.getHours ≤ 0
+    · simp only [hr, if_true]
+      unfold NetTwo.notFail
+      simp only [hf, Bool.and_true]
+      have hc := cnt_one_iff n.comps 0 i hi hf
+      cases h1 : ((n.comps.filter (·.failed)).length == 1)
+      · simp only [Bool.false_eq_true, if_false]
+        rw [h1] at hc
+        rw [h, hold]
+        cases hx : (n.comps.set i ⟨false, 0⟩).any (·.failed)
+        · rw [hx] at hc; simp at hc
+        · rfl
+      · simp only [if_true]
+        rw [h1] at hc
+        cases hx : (n.comps.set i ⟨false, 0⟩).any (·.failed)
+        · rfl
+        · rw [hx] at hc; simp at hc
+    · simp only [hr, if_false]
+      show n.flag = (n.comps.set i _).any _
+      rw [any_set_true _ _ _ hi, h, hold]
+  · have hf' : (n.comps.getD i default).failed = false := by simpa using hf
+    simp only [hf', Bool.false_eq_true, if_false]
+    by_cases hch : choice u (pFail rate dt) = true
+    · simp only [hch, if_true]
+      show true = (n.comps.set i _).any _
+      rw [any_set_true _ _ _ hi]
+    · simp only [hch, Bool.false_eq_true, if_false]
+      unfold NetTwo.notFail
+      simp only [hf', Bool.and_false, Bool.false_eq_true, if_false]
+      show n.flag = (n.comps.set i _).any _
+      rw [any_set_same _ _ i hi (by show false = _; rw [hf']), h]
+
+/-- Non-vacuity: two lines of one network out at the same time (2 h and 5 h left, 1 h steps): after two updates of line 0 it is
+back in service while line 1 is still out, and the flag is still up; it goes down when line 1 returns. -/
+example :
+    let n0 : NetTwo := ⟨[⟨true, 2⟩, ⟨true, 5⟩], true⟩
+    let n2 := (n0.stepOne 0 0 ⟨1, .hour⟩ 1 0).stepOne 0 0 ⟨1, .hour⟩ 1 0
+    n2.comps = [⟨false, 0⟩, ⟨true, 5⟩] ∧ n2.flag = true ∧
+    ((fun m => NetTwo.stepOne m 1 0 ⟨1, .hour⟩ 1 0)^[5] n2).flag = false := by
+  intro n0 n2
+  refine ⟨by decide +kernel, by decide +kernel, by decide +kernel⟩
 
 end Relsad.C13
